@@ -98,6 +98,7 @@ case_st = st.fixed_dictionaries({
     "start": st.fixed_dictionaries({"server": st.integers(0, 2), "dirs": st.lists(dir_seg, max_size=2),
                                     "leaf": seg_body, "qargs": qargs_st}),
     "hops": st.sampled_from([0, 1, 1, 2, 2, 3, 3, 4, 4]).flatmap(lambda n: st.lists(hop_st, min_size=n, max_size=n)),
+    "again": st.one_of(st.none(), st.integers(0, 7)),
 })
 
 
@@ -272,6 +273,36 @@ def run_case(case):
         want_chain = [(h["code"], loc) for h, loc in zip(hops, locations)]
         if got_chain != want_chain:
             fails.append(("redirects-list", "response.redirects is %r, the chain was %r" % (got_chain, want_chain)))
+        if fails or case.get("again") is None:
+            return fails, False
+        # a further request through the SAME Patron (now talking to the final server): it starts at a position of the
+        # chain that lives on that server and must report exactly the hops it follows itself
+        cands = [j for j in range(len(positions)) if positions[j][0] == positions[-1][0]]
+        k = cands[case["again"] % len(cands)]
+        patron.responses.clear()
+        del log[:]
+        sk, pk, qk = positions[k]
+        patron.request(method="GET", path=pk, qargs=odict((a, b) for a, b in qk), headers=odict([("Accept", "*/*")]))
+        state, rounds, ex = follow(patron, valets)
+        if state == "raised":
+            return [("%s/again" % httppipe.exc_sig(ex), "second request (from position %d) raised %r; %s" % (k, ex, desc))], False
+        if state == "bound":
+            return [], True
+        want = [(s_, "GET", p_, [(a, str(b)) for a, b in q_]) for s_, p_, q_ in positions[k:]]
+        got = [(s_, m_, p_, parse_qsl(q_, keep_blank_values=True)) for s_, m_, p_, q_, _ in log]
+        if got != want:
+            return [("again-wrong-hop", "second request from position %d: servers saw %r, chain is %r; %s" % (k, got, want, desc))], False
+        if len(patron.responses) != 1:
+            return [("again-response-count", "second request: %d responses delivered; %s" % (len(patron.responses), desc))], False
+        resp = patron.responses[0]
+        if resp.get("status") != 200 or bytes(resp.get("body", b"")) != b"final:%d" % (len(positions) - 1):
+            fails.append(("again-final-response", "second request: final response is %r %r; %s"
+                          % (resp.get("status"), bytes(resp.get("body", b""))[:40], desc)))
+        got_chain = [(r.get("status"), (r.get("headers") or {}).get("location")) for r in resp.get("redirects") or []]
+        want_chain = [(h["code"], loc) for h, loc in zip(hops[k:], locations[k:])]
+        if got_chain != want_chain:
+            fails.append(("again-redirects-list", "second request through the same Patron (from position %d of the chain): "
+                          "response.redirects is %r, the hops it followed were %r" % (k, got_chain, want_chain)))
         return fails, False
     finally:
         httppipe.close_all([patron] if patron else [], valets)
@@ -501,6 +532,8 @@ def classify(case):
             nt = True
         if positions[i + 1][2]:
             cls.append("location-with-query")
+    if case.get("again") is not None:
+        cls.append("second-request-same-patron")
     cls = sorted(set(cls))
     if nt:
         cls.append("non-trivial")
